@@ -254,6 +254,8 @@ def k_export(l1):
 
 def run(chk):
     prog, base = setup(chk)
+    from .common import state_shape
+    state_shape(chk, prog)
     chk.bounds = ["all coordinate quadruples (symbolic field values, every representation via the field contracts); all valid points for the export"]
     chk.outside = ["GF(p) is a field"]
     chk.assumptions = ["Element.Equal = congruence atom (C10 contract re-discharged here)", "field calls = ring operations (contracts discharged here)"]
@@ -269,4 +271,5 @@ def run(chk):
 
 def safety_net(chk):
     from sym import ir
-    return setext_battery_with_witnesses(chk, K.Base(ir.load()))
+    from sym import ptreplay
+    return setext_battery_with_witnesses(chk, K.Base(ir.load())) or ptreplay.battery_receiver_history(chk.seed)
